@@ -223,6 +223,9 @@ class Model:
 NAMES = [b"HEAD", b"refs/heads/a", b"refs/heads/a/b", b"refs/heads/b", b"refs/tags/t", b"refs/remotes/o/x", b"refs/heads/sym",
          b"refs/heads/sym2", b"refs/heads/c", b"refs/top"]
 PLAIN_NAMES = [b"refs/heads/a", b"refs/heads/b", b"refs/tags/t", b"refs/remotes/o/x", b"refs/heads/c", b"refs/top"]
+# a smaller universe dense in directory/file conflicts: two siblings below the conflicting directory (one can be deleted or stay packed-only
+# while the other keeps the collision alive), a second level, and a conflict below refs/remotes
+DF_NAMES = [b"HEAD", b"refs/heads/a", b"refs/heads/a/b", b"refs/heads/a/c", b"refs/heads/a/b/d", b"refs/remotes/o", b"refs/remotes/o/x", b"refs/heads/sym"]
 
 
 def make_objects(d):
@@ -247,9 +250,12 @@ def make_objects(d):
     return ids + [tagid]
 
 
-def gen_ops(rng, n, plain):
+ALL_NAMES = NAMES + [n_ for n_ in DF_NAMES if n_ not in NAMES] + [b"refs/heads/master"]
+
+
+def gen_ops(rng, n, plain, universe=None):
     ops = []
-    names = PLAIN_NAMES if plain else NAMES
+    names = PLAIN_NAMES if plain else (universe or NAMES)
     for _ in range(n):
         r = rng.random()
         name = rng.choice(names)
@@ -266,7 +272,7 @@ def gen_ops(rng, n, plain):
             ops.append(["del", rng.choice([n_ for n_ in names if n_ != b"HEAD"]), rng.choice(["cur", "cur", "zero", rng.randrange(5)])])
         elif r < 0.76 and not plain:
             src = rng.choice([b"HEAD", b"refs/heads/sym", b"refs/heads/sym2", b"refs/heads/c"])
-            ops.append(["symref", src, rng.choice([n_ for n_ in NAMES if n_ != src and n_ != b"HEAD"])])
+            ops.append(["symref", src, rng.choice([n_ for n_ in (universe or NAMES) if n_ != src and n_ != b"HEAD"])])
         elif r < 0.74 and plain == "symrefs-created-not-written-through":
             # symbolic refs are created (HEAD and two dedicated names, pointing at plain names, present or not) but nothing is ever written
             # through them: every other operation of a plain sequence names a plain ref directly
@@ -320,7 +326,7 @@ def run_seq(case):
     ids = _st["ids"]
     rng = random.Random(case["seed"])
     plain = case.get("plain", False)
-    ops = case.get("ops") or gen_ops(rng, case.get("n", 25), plain)
+    ops = case.get("ops") or gen_ops(rng, case.get("n", 25), plain, DF_NAMES if case.get("universe") == "df" else None)
     d = _st["scratch"].sub("r%d" % rng.randrange(10 ** 9))
     shutil.copytree(_st["tmpl"], d, dirs_exist_ok=True, symlinks=True)
     gitdir = os.path.join(d, ".git")
@@ -455,9 +461,10 @@ def run_seq(case):
                 # ---- state vs model
                 if want == "refused" and (exc is not None or got is False):
                     model.refs = pre
-                obs = observe(refs, NAMES + [b"refs/heads/master"])
+                obs = observe(refs, ALL_NAMES)
                 md = model.as_dict()
-                if obs["dict"] != md:
+                if obs["dict"] != md and len(viol) == nviol:
+                    # (a step whose return value already disagreed is reported by that; the state difference is its consequence)
                     diff = sorted(set(md) ^ set(obs["dict"])) if isinstance(obs["dict"], dict) else obs["dict"]
                     chg = [k for k in md if isinstance(obs["dict"], dict) and k in obs["dict"] and obs["dict"][k] != md[k]]
                     viol.append({"sig": "C16/%s/state/as_dict-differs-after-%s" % (bname, kind), "step": step,
@@ -472,7 +479,7 @@ def run_seq(case):
                         viol.append(v)
                 if idle is not None and not viol[nviol:] and rng.random() < 0.2:
                     stats["idle_handle_observations"] = stats.get("idle_handle_observations", 0) + 1
-                    obs2 = observe(idle, NAMES + [b"refs/heads/master"])
+                    obs2 = observe(idle, ALL_NAMES)
                     if obs2["dict"] != md:
                         d2 = sorted(set(md) ^ set(obs2["dict"])) if isinstance(obs2["dict"], dict) else obs2["dict"]
                         c2 = [k for k in md if isinstance(obs2["dict"], dict) and k in obs2["dict"] and obs2["dict"][k] != md[k]]
@@ -484,11 +491,20 @@ def run_seq(case):
                 if bname == "files":
                     # which operation left an empty directory behind (mechanism of the residue, used in later signatures)
                     outcome = "raised" if exc is not None else ("refused-or-failed" if got is False else "succeeded")
-                    for base_, dirs_, files_ in os.walk(os.path.join(gitdir.encode(), b"refs")):
-                        if not dirs_ and not files_:
+                    hollow = {}
+                    for base_, dirs_, files_ in os.walk(os.path.join(gitdir.encode(), b"refs"), topdown=False):
+                        # a directory is residue when nothing but (recursively) empty directories is below it
+                        hollow[base_] = not files_ and all(hollow.get(os.path.join(base_, d_), False) for d_ in dirs_)
+                        if hollow[base_]:
                             rel_ = os.path.relpath(base_, gitdir.encode())
                             if rel_ not in (b"refs/heads", b"refs/tags", b"refs/remotes", b"refs") and rel_ not in leftover_cause:
-                                leftover_cause[rel_] = "%s-%s" % ({"set": "conditional-set", "del": "conditional-delete", "add": "add_if_new"}.get(kind, kind), outcome)
+                                # a directory that became hollow because of residue already below it inherits that residue's cause
+                                inherited = [leftover_cause[os.path.join(rel_, d_)] for d_ in dirs_ if os.path.join(rel_, d_) in leftover_cause]
+                                leftover_cause[rel_] = inherited[0] if inherited else "%s-%s" % ({"set": "conditional-set", "del": "conditional-delete", "add": "add_if_new"}.get(kind, kind), outcome)
+                    for rel_ in list(leftover_cause):
+                        # a directory that disappeared or got content again is no residue any more; what is found there later has a new cause
+                        if not hollow.get(os.path.join(gitdir.encode(), rel_)):
+                            del leftover_cause[rel_]
                 if viol:
                     break
             if viol:
@@ -668,6 +684,8 @@ def main(ctx):
         cases.append({"kind": "names", "seed": "%d/nc/%d" % (ctx.seed, i), "n": 400, "confirm_all": True})
     for i in range(ctx.budget(500, 6000)):
         cases.append({"kind": "seq", "seed": "%d/s/%d" % (ctx.seed, i), "n": 25, "two_handles": i % 2 == 1})
+    for i in range(ctx.budget(250, 3000)):
+        cases.append({"kind": "seq", "seed": "%d/df/%d" % (ctx.seed, i), "n": 25, "universe": "df", "two_handles": i % 4 == 3})
     for i in range(ctx.budget(200, 2500)):
         cases.append({"kind": "seq", "seed": "%d/p/%d" % (ctx.seed, i), "n": 25, "plain": True if i % 2 else "symrefs-created-not-written-through", "reftable": True})
     for i in range(ctx.budget(40, 400)):
